@@ -33,6 +33,10 @@ class Interp(Exec, Joins, Exprs, Subs, Calls, Methods, Assume):
         if os.environ.get('SA_ISDIGITS_FIX'):
             pat = pat.replace('$', '\\Z')
         self.isdigits_lang = RegexLang(pat, 0, self.B)
+        try:
+            self.iban_structs = self.derive_iban()
+        except Exception:
+            self.iban_structs = None
         keys = self.B.cls_of_chars(''.join(self.charmap))
         self.charmap_keys = keys
         img = {}
@@ -56,6 +60,51 @@ class Interp(Exec, Joins, Exprs, Subs, Calls, Methods, Assume):
                         out[unicodedata.lookup(nm)] = tgt
                 return out
         raise RuntimeError('look-alike table not found')
+
+    def derive_iban(self):
+        """country code -> per-position classes of the BBAN, from iban.dat and the conversion table
+        in iban._struct_to_re (both read as data; summary used only when the function has the
+        expected shape: '^%s$' % _struct_re.sub(conv, structure))."""
+        import re as _re, os
+        from ..common import src as _src
+        m = self.prog.mods['stdnum.iban']
+        fn = m.funcs['_struct_to_re']
+        struct_pat = ast.literal_eval(m.assign_nodes['_struct_re'].args[0])
+        table = None
+        for n in ast.walk(fn):
+            if isinstance(n, ast.Dict) and all(isinstance(k, ast.Constant) for k in n.keys):
+                table = {k.value: v.value for k, v in zip(n.keys, n.values) if isinstance(v, ast.Constant)}
+        ret = [n for n in ast.walk(fn) if isinstance(n, ast.Return) and n.value is not None and not any(n is x for f in ast.walk(fn) if isinstance(f, ast.FunctionDef) and f is not fn for x in ast.walk(f))]
+        if table is None or not ret or _src(ret[-1].value) != "re.compile('^%s$' % _struct_re.sub(conv, structure))":
+            return None
+        conv = [n for n in ast.walk(fn) if isinstance(n, ast.FunctionDef) and n.name == 'conv']
+        if not conv or "'%s{%s}' % (chars, match.group(1))" not in _src(conv[0]) or 'match.group(2)' not in _src(conv[0]):
+            return None
+        cls = {}
+        for k, pat in table.items():
+            lang = RegexLang('^' + pat + '$', 0, self.B)
+            if not lang.ok or len(lang.alts) != 1 or len(lang.alts[0].items) != 1:
+                return None
+            cls[k] = lang.alts[0].items[0].cls
+        out = {}
+        path = os.path.join(self.prog.repo, 'stdnum', 'iban.dat')
+        sre = _re.compile(struct_pat)
+        for line in open(path, encoding='utf-8'):
+            if line[0] == '#' or not line.strip() or line[0] == ' ':
+                continue
+            cc = line.split()[0]
+            mb = _re.search(r'bban="([^"]*)"', line)
+            if not mb or not _re.match(r'^(?:%s)+$' % struct_pat, mb.group(1)):
+                continue
+            pos = []
+            for mm in sre.finditer(mb.group(1)):
+                if mm.group(2) not in cls:
+                    pos = None
+                    break
+                pos.extend([cls[mm.group(2)]] * int(mm.group(1)))
+            if pos is not None:
+                out[cc] = pos
+        return out
 
     def derive_isdigits_pattern(self):
         m = self.prog.mods['stdnum.util']
